@@ -7,7 +7,8 @@
 use checks::uow_util::{Appended, CountingSink};
 use metrique::unit_of_work::metrics;
 use metrique::{AppendAndCloseOnDrop, ForceFlushGuard, LazySlot, OnParentDrop, Slot, SlotGuard};
-use std::sync::{Arc, Barrier};
+use std::sync::Arc;
+use vcommon::sync::SpinGate as Barrier;
 use std::time::{Duration, Instant};
 use vcommon::serde_json::json;
 use vcommon::sync::{block_on, is_miri, progress_tick, ticket};
